@@ -937,6 +937,7 @@ func report(c *h.Check, r caseResult) {
 
 func run(c *h.Check) {
 	runRetries(c)
+	runConcurrent(c)
 	setup()
 	idx := 0
 	for _, hh := range tierHistories(c.Thorough()) {
@@ -1026,6 +1027,14 @@ func replay(c *h.Check, rf *h.ReplayFile) []vrt.Violation {
 			vs = append(vs, vrt.Violation{Kind: "acked-lost-after-failed-call", Sig: rf.Sig, Detail: m})
 		}
 		return vs
+	}
+	if strings.HasPrefix(rf.Scenario, "concurrent/") {
+		for _, x := range concCases(true) {
+			if "concurrent/"+x.Name == rf.Scenario {
+				return h.ReplaySchedule(concScenario(x), rf)
+			}
+		}
+		fault("replay: unknown scenario %q", rf.Scenario)
 	}
 	setup()
 	var cc crashCase
